@@ -94,6 +94,10 @@ def pool(rng, scratch):
     items.append(("ns-arith", {"text": H + "float u = 2 ** 3 / 4 - 1\nOp(sin(u) + pi, sqrt(2) * u, -u) | 0\nMeasureX | 0\nZgate(2 * q0 + 1) | 1\nSgate({w} / 3 - 1) | 2\n"}))
     items.append(("empty-brackets-a", {"text": "name ea\nversion 1.0\ntarget X ()\nVac() | 0\nMeasureFock() | 1\n"}))
     items.append(("empty-brackets-b", {"text": "name eb\nversion 1.0\ntype tdm ()\nMeasureHomodyne() | 0\nVac() | [1, 2]\n"}))
+    for nm in ["n", "x"]:
+        fp = os.path.join(scratch, "meta_%s.xbb" % nm)
+        open(fp, "w").write("name h\nversion 1.0\ntarget dev (shots=%s)\nVac | 0\n" % nm)
+        items.append(("meta-mentions-%s-file" % nm, {"path": fp}))
     items.append(("op-named-like-include", {"text": H + "Sub(x=1) | [0, 1]\nsub(a=1) | [2, 3]\n"}))
     for i in range(10):
         g = Gen(rng, allow_params=(i % 2 == 0))
@@ -177,7 +181,7 @@ def run(tier, seed):
         # ... and every way of failing after binding a name, followed by the scripts whose metadata mention that name
         for nm in ["n", "x", "alpha", "k", "p0", "m"]:
             fails = [it for it in items if it[0].startswith("fails-") and it[0].endswith("-" + nm)] + [it for it in items if it[0] in ("bad-mode-" + nm, "loopvar-" + nm, "binds-" + nm, "array-" + nm)]
-            later = [it for it in items if it[0] in ("meta-mentions-" + nm, "type-mentions-" + nm, "uses-" + nm)]
+            later = [it for it in items if it[0] in ("meta-mentions-" + nm, "type-mentions-" + nm, "uses-" + nm, "meta-mentions-%s-file" % nm)]
             for a in fails:
                 for b in later:
                     hists.append([a, b])
